@@ -55,23 +55,30 @@ inductive Err where
   | indexError     -- `fmmu_used[index] = logical` out of range
 deriving Repr, DecidableEq
 
-/-- the value of `index` (a Python int) or the exception of the `.index` call -/
-def slotChoice (t : Table) (write : Bool) : Except Err Int :=
-  let n : Int := t.length
-  let start : Int := if write then 1 else n
-  let start := min start (n - 1)
-  match pyIndexNone (pySliceRev t start) with
+/-- `start`: 1 for outputs, `len` for inputs, then `min(start, len - 1)` -/
+def startOf (n : Nat) (write : Bool) : Int := min (if write then 1 else (n : Int)) ((n : Int) - 1)
+
+/-- `start - <result of .index(None)>`, or the ValueError of `.index` -/
+def slotResult (start : Int) : Option Nat → Except Err Int
   | none => .error .valueError
   | some k => .ok (start - k)
 
+/-- the value of `index` (a Python int) or the exception of the `.index` call -/
+def slotChoice (t : Table) (write : Bool) : Except Err Int :=
+  slotResult (startOf t.length write) (pyIndexNone (pySliceRev t (startOf t.length write)))
+
+def storeResult (index : Int) : Option Table → Except Err (Int × Table)
+  | none => .error .indexError
+  | some t' => .ok (index, t')
+
+/-- `self.fmmu_used[index] = logical` -/
+def enterAt (t : Table) (logical : Nat) : Except Err Int → Except Err (Int × Table)
+  | .error e => .error e
+  | .ok index => storeResult index (pySetItem t index (some logical))
+
 /-- everything before the `try`: the chosen index and the new slot table -/
 def enter (t : Table) (write : Bool) (logical : Nat) : Except Err (Int × Table) :=
-  match slotChoice t write with
-  | .error e => .error e
-  | .ok index =>
-    match pySetItem t index (some logical) with
-    | none => .error .indexError
-    | some t' => .ok (index, t')
+  enterAt t logical (slotChoice t write)
 
 /-- the `finally` clause: `self.fmmu_used[index] = None` (an IndexError here would need a
 table that changed its length; it is kept as "unchanged") -/
@@ -134,23 +141,36 @@ def activateWr (cfg : Cfg) (index : Int) (logical : Nat) (write : Bool) : Wr :=
 def deactivateWr (index : Int) : Wr :=
   { addr := (fmmu_reg_base + fmmu_reg_activate : Nat) + fmmu_reg_stride * index, fields := [0] }
 
+/-- the part of `__aenter__` after the slot was recorded: the register write, and `finally` if it raises -/
+def enterResult (cfg : Cfg) (s : St) (write : Bool) (logical : Nat) (busFail : Bool) :
+    Except Err (Int × Table) → St × Outcome × List Wr
+  | .error e => (s, .failed e, [])
+  | .ok (index, t') =>
+    if busFail then ({ s with table := exit t' index }, .busError, [activateWr cfg index logical write])
+    else ({ table := t', live := s.live ++ [⟨index, logical, write⟩] }, .entered index,
+          [activateWr cfg index logical write])
+
+/-- `__aenter__` -/
+def stepEnter (cfg : Cfg) (s : St) (write : Bool) (logical : Nat) (busFail : Bool) : St × Outcome × List Wr :=
+  enterResult cfg s write logical busFail (enter s.table write logical)
+
+/-- the writes of `__aexit__` in the three modes -/
+def exitWrites (index : Int) : ExitMode → Outcome × List Wr
+  | .normal => (.exited, [deactivateWr index])
+  | .exc => (.exited, [])
+  | .busFail => (.busError, [deactivateWr index])
+
+def exitResult (s : St) (k : Nat) (mode : ExitMode) : Option Live → St × Outcome × List Wr
+  | none => (s, .noop, [])
+  | some m => ({ table := exit s.table m.index, live := s.live.eraseIdx k }, exitWrites m.index mode)
+
+/-- `__aexit__` of the `k`-th live mapping -/
+def stepExit (s : St) (k : Nat) (mode : ExitMode) : St × Outcome × List Wr :=
+  exitResult s k mode s.live[k]?
+
 def step (cfg : Cfg) (s : St) : Op → St × Outcome × List Wr
-  | .enter write logical busFail =>
-    match enter s.table write logical with
-    | .error e => (s, .failed e, [])
-    | .ok (index, t') =>
-      if busFail then ({ s with table := exit t' index }, .busError, [activateWr cfg index logical write])
-      else ({ table := t', live := s.live ++ [⟨index, logical, write⟩] }, .entered index,
-            [activateWr cfg index logical write])
-  | .exit k mode =>
-    match s.live[k]? with
-    | none => (s, .noop, [])
-    | some m =>
-      let s' : St := { table := exit s.table m.index, live := s.live.eraseIdx k }
-      match mode with
-      | .normal => (s', .exited, [deactivateWr m.index])
-      | .exc => (s', .exited, [])
-      | .busFail => (s', .busError, [deactivateWr m.index])
+  | .enter write logical busFail => stepEnter cfg s write logical busFail
+  | .exit k mode => stepExit s k mode
 
 def init (n : Nat) : St := { table := List.replicate n none, live := [] }
 
